@@ -12,7 +12,14 @@
    requesters, helper thread, cancellations at any point, process exits with either status, spawn
    failures, early drops; no bound on their number or on the number of requests:
      Request r, HelperAcquire, Deliver, Receive r, Cancel r, DropHeld r, Start r, SpawnFail r, Exit r ok,
-     DropRunning r, OrphanExit r.
+     DropRunning r, OrphanExit r, Done r.
+   `Exit r ok` is the PROCESS exiting: `Child::wait` completes and drops the token at once (in
+   `util::wait_with_input_output` the wait runs concurrently with the stdout/stderr drains); the request itself
+   ends later, at `Done r`, when the pipes reach EOF — something the compiler started may hold them for long.
+   draining = requests between the two: they hold NO token (no term for them in the conservation law).
+   The client itself: `Client::new()` = `new_num(num_cpus())`, a limited client with a pool of its own whatever
+   MAKEFLAGS says; the `inherited` branch of `_new` (no helper, `acquire()` returns an empty `Acquired` at once)
+   is not reachable from it.
    in_hand_off = hand + |slots|, holding = |held| + |running|, live_procs = |running| + |orphans|. *)
 From Coq Require Import List NArith Bool.
 From Sccache Require Import Model.Jobserver.
@@ -121,7 +128,67 @@ Theorem C16_progress :
 Proof. exact progress. Qed.
 Print Assumptions C16_progress.
 
+(* The release point is the exit of the process, whatever its status: the token is back in the pipe in the very
+   step in which the process exits, while the request is still waiting for EOF on the process' pipes. *)
+Theorem C16_release_at_process_exit :
+  forall (s : st) (r : rid) (ok : bool) (s' : st),
+  step s (Exit r ok) = Some s' ->
+  pool s' = pool s + 1 /\ In r (draining s') /\ mem r (running s') = mem r (del r (running s)) /\
+  queue s' = queue s /\ hand s' = hand s /\ reqs s' = reqs s.
+Proof. exact release_at_exit. Qed.
+Print Assumptions C16_release_at_process_exit.
+
+(* ... and the end of the request moves no token. *)
+Theorem C16_eof_moves_no_token :
+  forall (s : st) (r : rid) (s' : st),
+  step s (Done r) = Some s' ->
+  pool s' = pool s /\ reqs s' = reqs s /\ hand s' = hand s /\ queue s' = queue s /\ gone s' = gone s /\
+  slots s' = slots s /\ held s' = held s /\ running s' = running s.
+Proof. exact done_moves_no_token. Qed.
+Print Assumptions C16_eof_moves_no_token.
+
+(* Hence a compiler that has exited while something it started still holds its stdout/stderr keeps nothing from
+   the next request: with nobody else queued, the next request is served and starts its process although the
+   first request never completes (no `Done r` in the schedule). *)
+Theorem C16_next_runs_without_eof :
+  forall (n : N) (es : list event) (s : st) (r : rid) (ok : bool) (s1 : st) (r2 : rid),
+  run (init n) es = Some s -> step s (Exit r ok) = Some s1 ->
+  queue s = [] -> hand s = false -> active s1 r2 = false ->
+  exists s', run s1 [Request r2; HelperAcquire; Deliver; Receive r2; Start r2] = Some s' /\
+             In r2 (running s') /\ In r (draining s').
+Proof. exact next_runs_without_eof. Qed.
+Print Assumptions C16_next_runs_without_eof.
+
+(* The server's client (`Client::new()`), for EVERY environment — no MAKEFLAGS, a reachable named-fifo jobserver
+   with any number of tokens, an fd-pair jobserver with open or closed descriptors, garbage — is a limited client
+   whose pool is the number of CPUs the server sees: of any burst of m simultaneous acquisitions at most ncpus
+   hold an `Acquired` at once and none of those is empty. *)
+Theorem C16_server_client_owns_its_pool :
+  forall (ncpus : N) (mf : makeflags),
+  c_limited (client_new ncpus mf) = true /\ c_tokens (client_new ncpus mf) = ncpus.
+Proof. exact server_client_owns_its_pool. Qed.
+Print Assumptions C16_server_client_owns_its_pool.
+
+Theorem C16_every_acquired_holds_a_token :
+  forall (ncpus : N) (mf : makeflags) (m : N),
+  granted_at_once (client_new ncpus mf) m <= ncpus /\ empty_acquireds (client_new ncpus mf) m = 0.
+Proof. exact server_client_bound. Qed.
+Print Assumptions C16_every_acquired_holds_a_token.
+
 (* ---------------------------------------------------------------- non-vacuity *)
+
+(* the `inherited` branch of `_new` would NOT do: every one of m simultaneous acquisitions is granted, all empty *)
+Example C16_inherited_mode_is_unbounded :
+  forall m : N, granted_at_once client_inherited m = m /\ empty_acquireds client_inherited m = m.
+Proof. exact inherited_mode_unbounded. Qed.
+
+(* one token; 1 exits with a failure while its pipes stay open for good; 2 still runs *)
+Example C16_pipes_held_after_exit :
+  exists s, run (init 1) [Request 1; HelperAcquire; Deliver; Receive 1; Start 1; Request 2; Exit 1 false;
+                          HelperAcquire; Deliver; Receive 2; Start 2] = Some s /\
+             draining s = [1] /\ running s = [2] /\ pool s = 0.
+Proof. eexists. split; [vm_compute; reflexivity|]. vm_compute. auto. Qed.
+
 
 (* a contended history with every kind of exit: 2 tokens, 5 requests; 3 is dropped while queued, 4 is dropped
    with the token already in its slot, 1 fails to spawn, 2 runs and exits non-zero, 5 is dropped while running *)
